@@ -489,6 +489,10 @@ func (g *Gen) bindResults(env *Env, results *types.Tuple, res *Val, fn *ssa.Func
 
 // applyDeclaredMods havocs exactly the declared locations.
 func (g *Gen) applyDeclaredMods(st *State, env *Env, sp *FuncSpec) {
+	if sp.ModAll {
+		g.applyModSet(st, &ModSet{All: true})
+		return
+	}
 	// fields, objects and ghosts are located in the pre-state; contents(s) denotes the array held by s
 	// AFTER the call (fresh, or the old one when grown in place), so it is applied last, in the
 	// partially havocked state.
